@@ -45,6 +45,22 @@ def run_case(case):
                 c.node.multicast_relay = True
         net.start()
         net.sim.advance(3 * MS)
+        # history before the multicast: routed acknowledged writes by some nodes (they leave the NETWORK_ACK wait branch)
+        L = net.L
+        for ps, pd, pt in case.get("pre_writes", []):
+            if ps in net.ctl and pd in net.ctl and ps != pd:
+                net.call(ps, lambda node, pd=pd, pt=pt: node.write(L.Frame(L.Header(pd, pt), b"pre")), timeout_ms=20000)
+                net.settle(2000)
+        net.drain_queues()
+        # relays whose application has not read its queue: 6 unrelated frames are pending
+        for a in case.get("full_queue", []):
+            if a in net.ctl:
+                for i in range(6):
+                    f = L.Frame(L.Header(a, 126), b"dummy")
+                    f.header.from_node, f.header.frame_id = 0o5, 60000 + i
+                    net.ctl[a].node.queue.enqueue(f)
+        n_log0 = len(net.med.log)
+        out["n_log0"] = n_log0
         out["regs"] = {a: (c.chip.pipe_addr(0), c.chip.reg[2] & 1) for a, c in net.ctl.items()}
 
         def do(node):
@@ -54,7 +70,7 @@ def run_case(case):
 
         out["box"] = net.call(snd, do, timeout_ms=20000)
         net.settle(3000, quiet_ms=40)
-        out["queues"] = net.drain_queues()
+        out["queues"] = {a: [f for f in q if not (f[3] == 126 and f[5] == b"dummy")] for a, q in net.drain_queues().items()}
         out["overflow"] = {a: c.chip.fifo_overflows for a, c in net.ctl.items()}
 
     try:
@@ -89,6 +105,7 @@ def run_case(case):
     if len(members) >= 2 and others:
         res.nontrivial = True
     sender_tag = "master" if snd == 0 else ("0o1" if snd == 1 else "level%d" % netaddr.level(snd))
+    del net.med.log[:out.get("n_log0", 0)]
     frames = air_frames(net.med, merge_all=False)
     want_frames = rfrag.fragment(snd, 0o100, 0, typ, msg)
     mine = [f for f in frames if f["src"] == str(snd)]
@@ -125,7 +142,7 @@ def run_case(case):
     if not any_relay:
         for a in members:
             k = len(holds(a))
-            if a in overrun and k == 0:
+            if (a in overrun or a in case.get("full_queue", [])) and k == 0:
                 continue
             if k != 1:
                 res.fail("C14/%s/level%d-from-%s" % ("not-received" if k == 0 else "received-twice", target, sender_tag),
@@ -152,10 +169,10 @@ def run_case(case):
                     res.fail("C14/relay-count", "relay %o took %d copies and re-broadcast %d times" % (a, copies, len(rebroadcasts)))
                 elif any(f["addr"] != netaddr.level_address(eff_level(n) + 1) for f in rebroadcasts):
                     res.fail("C14/relay-wrong-level", "relay %o (level %d) re-broadcast to %s" % (a, eff_level(n), rebroadcasts[0]["addr"].hex()))
-                if len(holds(a)) != 1:
+                if len(holds(a)) != 1 and a not in case.get("full_queue", []):
                     res.fail("C14/relay-does-not-queue", "relay %o holds the multicast %d times" % (a, len(holds(a))))
         for a in members:
-            if a in overrun:
+            if a in overrun or a in case.get("full_queue", []):
                 continue
             if len(holds(a)) != 1 and not spec[a].get("relay"):
                 res.fail("C14/not-received/level%d-from-%s" % (target, sender_tag), "node %o holds the multicast %d times" % (a, len(holds(a))))
@@ -203,8 +220,14 @@ def _strategy():
         level = draw(st.sampled_from(["default", "default", 0, 1, 2, 3, 4, 4, -1, 5]))
         maxlen = 24 if relay_case else 144
         n = draw(st.one_of(st.integers(0, maxlen), st.sampled_from([0, 1, 24] + ([] if relay_case else [25, 48, 144]))))
+        pre = []
+        if draw(st.integers(0, 2)) == 0:
+            for _ in range(draw(st.integers(1, 2))):
+                a1, a2 = draw(st.sampled_from(sorted(pop))), draw(st.sampled_from(sorted(pop)))
+                pre.append([a1, a2, draw(st.sampled_from([65, 100, 3]))])
+        fullq = [n2["addr"] for n2 in nodes if n2.get("relay") and draw(st.integers(0, 2)) == 0]
         return {"nodes": nodes, "sender": snd["addr"], "level": level, "type": draw(st.sampled_from([0, 1, 64, 65, 100, 127])),
-                "msg": draw(st.binary(min_size=n, max_size=n)).hex()}
+                "msg": draw(st.binary(min_size=n, max_size=n)).hex(), "pre_writes": pre, "full_queue": fullq}
 
     return case()
 
@@ -219,7 +242,22 @@ def _enum():
                 yield {"nodes": nodes, "sender": snd, "level": level, "type": 1, "msg": msg}
 
 
+def _enum_history():
+    """a routed acknowledged write by a level member (timing out or acknowledged) before the multicast; relays with a full queue"""
+    pop = [0, 0o1, 0o2, 0o3, 0o11, 0o21, 0o12, 0o111]
+    nodes = [{"addr": a, "kind": "net", "mc": True} for a in pop]
+    for pre in ([[0o2, 0o1, 100]], [[0o2, 0o5, 100]], [[0o11, 0o2, 65]], [[0o1, 0o12, 127], [0o3, 0o21, 66]]):
+        for snd, level in ((0, 1), (0o3, 1), (0o1, 2), (0, 2), (0o12, "default")):
+            yield {"nodes": nodes, "sender": snd, "level": level, "type": 1, "msg": "6d63", "pre_writes": pre, "full_queue": []}
+    rnodes = [dict(n, relay=n["addr"] in (0o1, 0o2, 0o11)) for n in nodes]
+    for fullq in ([], [0o1], [0o1, 0o2], [0o11]):
+        for snd, level in ((0, 1), (0o3, 1), (0o1, 2), (0o111, 1)):
+            yield {"nodes": rnodes, "sender": snd, "level": level, "type": 1, "msg": "72656c6179", "pre_writes": [], "full_queue": fullq}
+
+
 def parts(tier):
     if tier == "quick":
-        return [Part("enum-sender-class-x-level", "enum", _enum, exhaustive=True), Part("generated", "gen", _strategy, n=300)]
-    return [Part("enum-sender-class-x-level", "enum", _enum, exhaustive=True), Part("generated", "gen", _strategy, n=15000)]
+        return [Part("enum-sender-class-x-level", "enum", _enum, exhaustive=True), Part("enum-history-and-relays", "enum", _enum_history, exhaustive=True),
+                Part("generated", "gen", _strategy, n=300)]
+    return [Part("enum-sender-class-x-level", "enum", _enum, exhaustive=True), Part("enum-history-and-relays", "enum", _enum_history, exhaustive=True),
+            Part("generated", "gen", _strategy, n=15000)]
